@@ -622,6 +622,90 @@ Proof.
     unfold post. cbn [cur is_ok err depth discard calls leave with_depth]. repeat split; assumption.
 Qed.
 
+Definition tag_fails (tag : bytes) : Prop :=
+  match lookup_tag o tag with
+  | Some h => exists ms, forall v, handler h v = (None, ms)
+  | None => (reader_mode o =? READER_UNWRAP)%Z = false /\ (reader_mode o =? READER_ERROR)%Z = true
+  end.
+
+(* a tagged element whose handler refuses every value, or an unregistered tag under the ERROR default: the read fails *)
+Lemma htag_fails n : HIH n -> forall tag ws x, (hsize x <= n)%nat -> tagok tag -> trivia ws -> ws <> [] -> hwf x -> hok x -> tag_fails tag ->
+  forall s, is_ok s = true -> has_registry o && negb (discard s) = true ->
+  let txt := "#"%byte :: tag ++ ws ++ hpr x in
+  cur s + N.of_nat (List.length txt) <= e -> slice m (cur s) (List.length txt) = txt -> follow (cur s + N.of_nat (List.length txt)) ->
+  exists f0, forall f, (f0 <= f)%nat -> exists s', RV f s = Ret None s' /\
+    match lookup_tag o tag with
+    | Some h => err s' = ESyntax /\ exists ms, msg s' = MHandler ms /\ forall v, handler h v = (None, ms)
+    | None => err s' = EUnknownTag
+    end.
+Proof.
+  intros IH tag ws x Hszx (Hne & Hid & Hhd & Hn1 & Hn2 & Hn3) Hws Hwsne Hwx Hox Htot s Hok Hreg txt Hle Hsl Hfol. unfold txt in *. clear txt.
+  cbn [List.length] in Hle, Hsl, Hfol |- *. apply hbyte_hd in Hsl. destruct Hsl as [Hb0 Hsl].
+  rewrite !app_length in Hle, Hsl, Hfol.
+  rewrite slice_app in Hsl. apply app_eq_len in Hsl; [|now rewrite slice_length]. destruct Hsl as [Htg Hsl].
+  rewrite slice_app in Hsl. apply app_eq_len in Hsl; [|now rewrite slice_length]. destruct Hsl as [Hwsl Hxsl].
+  destruct tag as [|b0 tr]; [congruence|]. cbn [List.hd] in Hhd.
+  assert (Hb1 : m (cur s + 1) = b0) by (apply (hbyte_at _ (b0 :: tr) b0 tr eq_refl Htg)).
+  assert (Hidb : identb b0 = true) by (cbn [forallb] in Hid; now apply andb_prop in Hid as [? _]).
+  destruct tag_byte_facts as [Htb Hdl].
+  pose proof (byte_sweep _ Htb b0) as Hs0. cbv beta in Hs0. rewrite Hidb in Hs0.
+  assert (Hnu : Byte.eqb b0 "_" = false) by (destruct (Byte.eqb b0 "_") eqn:E; [apply Byte.byte_dec_bl in E; congruence|reflexivity]).
+  rewrite Hnu in Hs0. cbn [negb andb implb] in Hs0.
+  apply andb_prop in Hs0 as [Hs0 T5]. apply andb_prop in Hs0 as [Hs0 T4]. apply andb_prop in Hs0 as [Hs0 T3]. apply andb_prop in Hs0 as [T1 T2].
+  apply negb_true_iff in T1, T2, T3, T5.
+  destruct (trivia_first ws Hws Hwsne) as (w0 & wr & Ews & Hw0).
+  assert (Hdw : is_delim w0 = true) by (pose proof (byte_sweep _ Hdl w0) as H; cbv beta in H; now rewrite Hw0 in H).
+  set (ltag := List.length (b0 :: tr)) in *.
+  assert (Hmw : m (cur s + 1 + N.of_nat ltag) = w0) by (apply (hbyte_at _ ws w0 wr Ews Hwsl)).
+  assert (Hlw : (0 < List.length ws)%nat) by (rewrite Ews; cbn; lia).
+  destruct (hpr_first x Hwx) as (bx & rx & Epx & Hx1 & Hx2 & _).
+  assert (Hlx : (0 < List.length (hpr x))%nat) by (rewrite Epx; cbn; lia).
+  set (s0 := with_start (enter s) (cur s)).
+  set (s1 := with_cur s0 (cur s0 + 1)).
+  set (s2 := with_cur s1 (cur s1 + N.of_nat ltag)).
+  set (so := with_depth s2 (depth s0 + 1)).
+  assert (Hcso : cur so = cur s + 1 + N.of_nat ltag) by reflexivity.
+  assert (Hst : stands m e (cur s1) (b0 :: tr)).
+  { change (cur s1) with (cur s + 1). split; [fold ltag; lia|]. split; [exact Htg|]. right. fold ltag. now rewrite Hmw. }
+  destruct (skp_facts so ws) as (Hc1 & Hok1 & Hd1 & Hdi1 & Hca1). set (sw := skp so ws) in *.
+  assert (Hfs : fstarts (cur so + N.of_nat (List.length ws))).
+  { right. rewrite Hcso. split; [lia|]. rewrite (hbyte_at _ (hpr x) bx rx Epx Hxsl). split; assumption. }
+  assert (Habs : forall f, RV (S f) so = RV (S f) sw) by (intros f; apply absorb'; try assumption; rewrite Hcso; try assumption; lia).
+  destruct (IH x Hszx Hwx Hox sw ltac:(rewrite Hok1; exact Hok) ltac:(rewrite Hc1, Hcso; lia) ltac:(rewrite Hc1, Hcso; exact Hxsl)
+              ltac:(rewrite Hc1, Hcso; replace (cur s + 1 + N.of_nat ltag + N.of_nat (List.length ws) + N.of_nat (List.length (hpr x)))
+                       with (cur s + N.of_nat (S (ltag + (List.length ws + List.length (hpr x))))) by lia; exact Hfol)) as (fx & Hfx).
+  destruct (Hfx fx (le_n _)) as (v & s3 & cs1 & Hrv & Hdv & Hc3 & Hok3 & Hd3 & Hdi3 & Hca3).
+  rewrite Hc1, Hcso in Hc3. rewrite Hd1 in Hd3. rewrite Hdi1 in Hdi3, Hdv. rewrite Hca1 in Hca3.
+  change (discard so) with (discard s) in Hdi3, Hdv. change (calls so) with (calls s) in Hca3. change (depth so) with (depth s + 1) in Hd3.
+  exists (S (S (S fx))). intros f Hf. destruct f as [|[|[|f]]]; try lia.
+  assert (Hrun : RV (S f) so = Ret (Some v) s3).
+  { rewrite Habs. replace (S f) with (fx + (S f - fx))%nat by lia. apply read_value_fuel_irrelevant; [exact Hrv|discriminate]. }
+  destruct hash_facts as (_ & _ & Hpf & Hcls). rewrite forallb_forall in Hcls. specialize (Hcls c Hc). apply andb_prop in Hcls as [Hh Hnee].
+  pose proof (not_earlier_spec c _ 5 ltac:(lia) Hnee) as Hn.
+  rewrite RV_S. unfold value_body. cbv zeta. cbn [cur with_start enter].
+  replace (cur s <? e) with true by (symmetry; apply N.ltb_lt; lia). rewrite Hb0, Hpf. cbn [cur with_start enter]. rewrite Hb0.
+  usecls Hn 0%nat; usecls Hn 1%nat; usecls Hn 2%nat; usecls Hn 3%nat; usecls Hn 4%nat. rewrite Hh.
+  replace (cur s + 1 <? e) with true by (symmetry; apply N.ltb_lt; lia). rewrite Hb1.
+  change (is_byte b0 "{") with (Byte.eqb b0 "{"%byte). change (is_byte b0 "#") with (Byte.eqb b0 "#"%byte).
+  change (is_byte b0 "_") with (Byte.eqb b0 "_"%byte). change (is_byte b0 ":") with (Byte.eqb b0 ":"%byte).
+  rewrite T2, T3, Hnu, T5. cbn [andb]. rewrite andb_false_r. fold s0.
+  rewrite RT_S. unfold tagged_body. cbv zeta. fold s1.
+  replace (e <=? cur s1) with false by (symmetry; apply N.leb_gt; change (cur s1) with (cur s + 1); lia).
+  change (m (cur s1)) with (m (cur s + 1)). rewrite Hb1, T1.
+  rewrite (read_symbol_plain m e s1 (b0 :: tr) Hne Hid Hst Hn1 Hn2 Hn3). cbn [nval mk]. fold ltag. fold s2.
+  replace (slice m (cur s1) (N.to_nat (cur s2 - cur s1))) with (b0 :: tr)
+    by (change (cur s2) with (cur s1 + N.of_nat ltag); replace (N.to_nat (cur s1 + N.of_nat ltag - cur s1)) with ltag by lia; symmetry; exact Htg).
+  fold so. rewrite Hrun.
+  set (s4 := with_depth s3 (depth s0)).
+  assert (Hdi4 : discard s4 = discard s) by exact Hdi3.
+  rewrite Hdi4.
+  set (q := cur s + N.of_nat (S (ltag + (List.length ws + List.length (hpr x))))).
+  assert (Hq : cur s3 = q) by (rewrite Hc3; unfold q; lia).
+  rewrite Hreg. unfold tag_fails in Htot. destruct (lookup_tag o (b0 :: tr)) as [h|] eqn:Hlk.
+  - destruct Htot as (ms & Hall). rewrite (Hall v). eexists. split; [reflexivity|]. split; [reflexivity|]. exists ms. split; [reflexivity|exact Hall].
+  - destruct Htot as [Hun Her]. rewrite Hun, Her. eexists. split; [reflexivity|]. reflexivity.
+Qed.
+
 Theorem read_hterm : forall n, HIH n.
 Proof.
   induction n as [|n IH]; intros a Hsz Hw Hko s Hok Hle Hsl Hf.
@@ -673,6 +757,37 @@ Proof.
   destruct Hdoc as (r & Hrd & Hv & He & Hf & Hst).
   exists r, s', n, cs. split; [apply (any_fuel_is_the_run c o m e f0 _ Hc Hrd); discriminate|]. repeat split; try assumption.
   rewrite Hst, Hca. cbn [calls init_pst]. now rewrite app_nil_r.
+Qed.
+
+(* a handler that refuses the value fails the whole read with the handler's message; an unregistered tag under the ERROR
+   default fails it with the class "unknown tag" (top-level tagged element; the inner form any term of the fragment) *)
+Theorem tag_failure_document c o m tag ws x : In c all_cfgs -> tagok tag -> trivia ws -> ws <> [] -> hwf x -> hok o builtin_handler x ->
+  has_registry o = true -> tag_fails o builtin_handler tag ->
+  let txt := "#"%byte :: tag ++ ws ++ hpr x in
+  slice m 0 (List.length txt) = txt ->
+  exists r s, run_doc c o m (N.of_nat (List.length txt)) = Ret r s /\ r_value r = None /\ r_eof r = false /\
+    match lookup_tag o tag with
+    | Some h => r_err r = ESyntax /\ exists ms, r_msg r = MHandler ms /\ forall v, builtin_handler h v = (None, ms)
+    | None => r_err r = EUnknownTag
+    end.
+Proof.
+  intros Hc Htag Hws Hne Hwx Hox Hreg Hfail txt Hsl. set (e := N.of_nat (List.length txt)).
+  destruct (htag_fails c Hc o builtin_handler no_ext_equal no_ext_hash (isort c) m e (hsize x)
+              (read_hterm c Hc o builtin_handler no_ext_equal no_ext_hash (isort c) m e (hsize x)) tag ws x (le_n _) Htag Hws Hne Hwx Hox Hfail
+              init_pst eq_refl ltac:(cbn [discard init_pst negb]; now rewrite Hreg) ltac:(cbn [cur init_pst]; unfold e, txt; lia) Hsl
+              ltac:(left; cbn [cur init_pst]; unfold e, txt; lia)) as (f0 & Hf0).
+  destruct (Hf0 f0 (le_n _)) as (s' & Hr & Hres).
+  assert (Herr : err s' <> EOk /\ err s' <> EEof).
+  { destruct (lookup_tag o tag); [destruct Hres as [-> _]|rewrite Hres]; split; discriminate. }
+  assert (Hdoc : exists r, read_doc c o builtin_handler no_ext_equal no_ext_hash (isort c) m e f0 = Ret r s' /\
+                           r_value r = None /\ r_eof r = false /\ r_err r = err s' /\ r_msg r = msg s').
+  { unfold read_doc. rewrite Hr. cbv zeta.
+    assert (Heof : is_eof s' = false) by (unfold is_eof; destruct (err s'); try reflexivity; exfalso; apply (proj2 Herr); reflexivity).
+    rewrite Heof. cbn [andb]. destruct (is_ok s'); eexists; (split; [reflexivity|]); cbn; repeat split; reflexivity. }
+  destruct Hdoc as (r & Hrd & A & B & C & D). exists r, s'.
+  split; [apply (any_fuel_is_the_run c o m e f0 _ Hc Hrd); discriminate|]. split; [exact A|]. split; [exact B|].
+  destruct (lookup_tag o tag); [|now rewrite C].
+  destruct Hres as (E1 & ms & E2 & E3). split; [now rewrite C|]. exists ms. split; [now rewrite D|exact E3].
 Qed.
 
 (* without a registry every tag yields the generic tagged value and no handler is ever invoked *)
